@@ -27,7 +27,7 @@ ASSUMPTIONS = [
     "-DBP_BIG_ENDIAN and are excluded from (b); no emulator is available",
     "the harness's own bit loop (rt.c) and ref.py are the specification",
 ]
-REQUIRED_LABELS = ["width_gt8", "straddle_byte", "rt:be"]
+REQUIRED_LABELS = ["width_gt8", "straddle_byte", "rt:be", "std:be"]
 
 BE_BUILDS = [
     ("O-little", True, "little", False),
@@ -80,7 +80,64 @@ def run_rt_job(job: Any, stats: Stats) -> None:
     stats.sample({"runtime_enumeration": f"{cc} {opt} san={san}", "groups": {g: n for g, (n, nt) in be.counts.items()}})
 
 
+def std_be_strategy(tier: str) -> Any:
+    # what can be simulated on x86: no extensible types (native 16-bit prefix), signed widths 8/16/32/64 only
+    feat = S.Features(extensible=False, ext_arrays=False, signed_nonstd=False, bits_budget=500, big=False, max_files=2)
+    return cases.sv_cases(feat, nrand=2)
+
+
+def run_std_be(case: cases.SVCase, stats: Stats) -> None:
+    """(c) generated standard-mode C (descriptor tables) + runtime, both built with -DBP_BIG_ENDIAN, the driver laying
+    every struct member out big-endian: wire bytes must equal the reference, decode must reproduce the big-endian storage."""
+    from .. import gen, ref
+    from ..model import unit_messages
+
+    with gen.Compiled(case.unit, case.style) as cu:
+        try:
+            cdir = cu.render_all("c")
+        except Exception as e:
+            raise Violation(f"schema failed to compile: {type(e).__name__}: {e}", signature="compile")
+        allm = unit_messages(case.unit)
+        msgs = [m for m in allm if not ref.has_empty_enum(m)]
+        if not msgs:
+            return
+        try:
+            drv = cexec.CDriver(case.unit, cdir, msgs, cexec.CConfig("gcc", "-O1", big_endian=True), with_json=False, workdir=cu.outdir("drv"), be_storage=True)
+        except cexec.CBuildError as e:
+            raise Violation(f"standard-mode C does not build with -DBP_BIG_ENDIAN: {e}", signature="cbuild")
+        digest = cases.unit_digest(cu.texts)
+        index_of = {id(m): i for i, m in enumerate(allm)}
+        ops, meta = [], []
+        for k, m in enumerate(msgs):
+            for vname, v in cases.vectors(case, index_of[id(m)], m, 256):
+                want = ref.encode(m, v)
+                ops.append(cexec.op_encode(k, m, v, 0)); meta.append(("E", m, vname, v, want))
+                ops.append(cexec.op_decode(k, want, 0)); meta.append(("D", m, vname, v, want))
+        try:
+            resp = drv.run(ops)
+        except cexec.Crash as c:
+            kind, m, vname, v, want = meta[min(c.op_index, len(meta) - 1)]
+            raise Violation(f"big-endian build of the runtime died in {kind} of {m.name} vector {vname}: {c}", {"value": v}, signature="crash")
+        stats.count("std:be")
+        for line, (kind, m, vname, v, want) in zip(resp, meta):
+            stats.evaluations += 1
+            if kind == "E":
+                r = cexec.EncResp(line)
+                if r.data != want or not r.fences_ok():
+                    raise Violation(f"big-endian build, big-endian storage: Encode{cexec.struct_name(m)} vector {vname}: got {r.data.hex()} want {want.hex()} (stream bits {gen.bit_diff(r.data, want)[:16]})", {"value": v}, signature="std-be-encode")
+            else:
+                r2 = cexec.DecResp(line, m)
+                wantv = cexec.leaf_values(m, v)
+                if r2.values != wantv or not r2.fences_ok():
+                    lvs = ref.leaves(m)
+                    bad = [(lvs[i].path, f"{lvs[i].kind}{lvs[i].bits}@{lvs[i].offset}", r2.values[i], wantv[i]) for i in range(min(len(wantv), len(r2.values))) if r2.values[i] != wantv[i]][:5]
+                    raise Violation(f"big-endian build, big-endian storage: Decode{cexec.struct_name(m)} vector {vname}: wrong leaves {bad}", {"value": v, "bytes": want.hex()}, signature="std-be-decode")
+            if "width_gt8" in S.message_labels(m):
+                stats.mark_nontrivial(digest, m.name, v, kind, "std-be")
+
+
 PARTS = [
     HypPart("opmode", c04.strategy, run_a, {"quick": 160, "thorough": 3200}, describe=cases.describe),
+    HypPart("std_be", std_be_strategy, run_std_be, {"quick": 240, "thorough": 4800}, describe=cases.describe),
     FuncPart("runtime", rt_jobs, run_rt_job),
 ]
